@@ -63,7 +63,7 @@ def mOPTIONS : Int := methodId (ofString "OPTIONS")
 /-! ### request head -> request state -/
 
 /-- the parser's working record as the C finds it in the request object -/
-def toPReq (s : ReqSt) : PReq :=
+def toPReq (s : ReqCore) : PReq :=
   { version := if s.version ≤ 0 then 0 else s.version.toNat,
     keepAlive := s.keepAlive ≠ 0,
     method := methodName s.method,
@@ -166,7 +166,7 @@ def storeParsed (s : ReqSt) (ver : Int) (r : PReq) (t : Target) (raw : Bytes) (s
     rqstHeaderLen := hlen }
 
 /-- http_request_headers_fin() after a parse error -/
-def storeError (s : ReqSt) (status : Nat) (ver meth : Int) : ReqSt :=
+def storeError (s : ReqCore) (status : Nat) (ver meth : Int) : ReqCore :=
   { s with httpStatus := status, keepAlive := 0, reqbodyLength := 0,
            version := if ver = -1 then s.version else ver,
            method := if meth = -1 then s.method else meth }
@@ -191,15 +191,15 @@ def parseIntoH1 (s : ReqSt) (block : Bytes) : IntoRes :=
     | rl :: fields =>
       let (pv, pm) := reqlinePrefix o rl
       match parseReqline o rl (block.take len) with
-      | .error e => .done (storeError s e pv pm)
+      | .error e => .done (s.onCore (storeError · e pv pm))
       | .ok r1 =>
-        match parseHeaders o (mergeReqline (toPReq s) r1) fields with
-        | .error e => .done (storeError s e pv pm)
+        match parseHeaders o (mergeReqline (toPReq s.toReqCore) r1) fields with
+        | .error e => .done (s.onCore (storeError · e pv pm))
         | .ok r2 =>
           let special := (r2.method = ofString "CONNECT" && !s.h2ConnectExt)
                           || (r2.method = ofString "OPTIONS" && r2.target = [42])
           match parsePostV o 80 s.h2ConnectExt r2 with
-          | .err e => .done (storeError s e pv pm)
+          | .err e => .done (s.onCore (storeError · e pv pm))
           | .skipV6 => .skipV6
           | .ok r t => .done (storeParsed s (r.version : Int) r t r2.target special 80 len)
 
@@ -315,14 +315,14 @@ def h2Fields (o : Opts) (maxField : Nat) (r : PReq) (c : H2Ctx) (fs : List (Byte
 def parseIntoH2 (s : ReqSt) (fs : List (Bytes × Bytes)) (endStream : Bool) : IntoRes :=
   let o : Opts := ⟨s.conf.parseopts⟩
   let s := { s with reqbodyLength := if endStream then 0 else -1 }
-  let pre := { toPReq s with version := 2 }
+  let pre := { toPReq s.toReqCore with version := 2 }
   let hlen := (fs.map fun kv => kv.1.length + kv.2.length + 4).sum + 2
   match h2Fields o s.conf.maxRequestFieldSize pre { ext := s.h2ConnectExt } fs with
-  | .error e => .done (storeError { s with version := 2 } e 2 (-1))
+  | .error e => .done ({ s with version := 2 }.onCore (storeError · e 2 (-1)))
   | .ok (r, c) =>
     let special := (r.method = ofString "CONNECT" && !c.ext) || (r.method = ofString "OPTIONS" && r.target = [42])
     match parsePostV o 80 c.ext r with
-    | .err e => .done (storeError { s with version := 2, h2ConnectExt := c.ext } e 2 (methodId r.method))
+    | .err e => .done ({ s with version := 2, h2ConnectExt := c.ext }.onCore (storeError · e 2 (methodId r.method)))
     | .skipV6 => .skipV6
     | .ok r' t =>
       .done { storeParsed s 2 r' t r.target special 80 (s.rqstHeaderLen + hlen) with h2ConnectExt := c.ext }
@@ -365,7 +365,7 @@ def Site.lookup (site : Site) (p : Bytes) : Option FsNode :=
 
 def endsWith (s suf : Bytes) : Bool := suf.length ≤ s.length && s.drop (s.length - suf.length) = suf
 
-def evalCond (s : ReqSt) : Cond → Bool
+def evalCond (s : ReqCore) : Cond → Bool
   | .urlPrefix p => (s.uriPath.bytes.take p.length) = p
   | .hostEq h => s.uriAuthority.bytes = h
   | .headerEq n v =>
@@ -382,7 +382,7 @@ def applyScope (c : Conf) (sc : Scope) : Conf :=
 /-- config_cond_cache_reset() + config_patch_config(): every block is evaluated against the
     current request, the results are cached (context 0 is the global scope) -/
 def httpResponseConfig (site : Site) (s : ReqSt) : ReqSt :=
-  let results := site.scopes.map fun sc => evalCond s sc.cond
+  let results := site.scopes.map fun sc => evalCond s.toReqCore sc.cond
   let cache : List CondEnt :=
     ({} : CondEnt) :: results.map fun b => { result := if b then 3 else 2, localResult := if b then 3 else 2 }
   let conf := (site.scopes.zip results).foldl (fun c p => if p.2 then applyScope c p.1 else c) s.conf
@@ -413,11 +413,11 @@ def isGetHeadQuery (m : Int) : Bool := m = mGET || m = mHEAD || m = mQUERY
 def isGetHeadQueryPost (m : Int) : Bool := isGetHeadQuery m || m = mPOST
 
 /-- http_status_set_error_close() -/
-def errorClose (s : ReqSt) (st : Int) : ReqSt :=
+def errorClose (s : ReqCore) (st : Int) : ReqCore :=
   { s with keepAlive := 0, respBodyFinished := true, handlerModule := false, httpStatus := st }
 
 /-- http_response_prepare_options_star() -/
-def optionsStar (s : ReqSt) : ReqSt :=
+def optionsStar (s : ReqCore) : ReqCore :=
   respAppend { s with httpStatus := 200, respBodyFinished := true } idAllow (ofString "Allow")
     (ofString "OPTIONS, GET, HEAD, POST")
 
@@ -429,19 +429,19 @@ def joinPath (a b : Bytes) : Bytes :=
 
 /-- mod_setenv: handle_uri_clean (plugin slot 1): the per-request context is created once and
     keeps the configuration that matched when it was created -/
-def setenvUriClean (s : ReqSt) : ReqSt :=
+def setenvUriClean (s : ReqCore) : ReqCore :=
   match s.pluginCtx.getD 1 none with
   | some _ => s                                   -- hctx->handled: nothing to do
   | none => { s with pluginCtx := s.pluginCtx.set 1 (some s.conf.extra) }
 
 /-- mod_setenv: handle_response_start -/
-def setenvResponseStart (s : ReqSt) : ReqSt :=
+def setenvResponseStart (s : ReqCore) : ReqCore :=
   match s.pluginCtx.getD 1 none with
   | none => s
   | some hs => hs.foldl (fun s kv => respInsert s (hid (kv.1.map toLower)) kv.1 kv.2) s
 
 /-- http_response_send_file() + http_response_handle_cachable() for a regular file -/
-def sendFile (s : ReqSt) (ctype content etag : Bytes) : ReqSt :=
+def sendFile (s : ReqCore) (ctype content etag : Bytes) : ReqCore :=
   let implicitOctet := ctype.isEmpty
   let s := if !btst s.respHtags idContentType then
              respSet s idContentType (ofString "Content-Type")
@@ -462,16 +462,9 @@ def sendFile (s : ReqSt) (ctype content etag : Bytes) : ReqSt :=
     let s := { s with writeQueue := s.writeQueue.append content, httpStatus := 200, respBodyFinished := true }
     respSet s idContentLength (ofString "Content-Length") (natToDec content.length)
 
-/-- the subrequest_start hooks and the "no handler" fallback of http_response_prepare() -/
-def subrequestStart (site : Site) (s : ReqSt) : ReqSt :=
-  -- mod_indexfile
-  let s :=
-    if !s.handlerModule && s.uriPath.bytes.getLast? = some slash then
-      match site.indexNames.find? (fun n => (site.lookup (s.physPath.bytes ++ n)).isSome) with
-      | some n => { s with physPath := some (s.physPath.bytes ++ n), physPathPtr := true,
-                           uriPath := some (s.uriPath.bytes ++ n) }
-      | none => s
-    else s
+/-- mod_staticfile for a request that reached the end of the subrequest_start hooks, and the
+    "no handler" fallback of http_response_prepare() -/
+def staticOrFallback (site : Site) (s : ReqCore) : ReqCore :=
   -- mod_access (second call), mod_staticfile
   if site.denySuffix.any (fun d => endsWith s.uriPath.bytes d) then
     { s with httpStatus := 403, handlerModule := false }
@@ -492,10 +485,22 @@ def subrequestStart (site : Site) (s : ReqSt) : ReqSt :=
     else { s with httpStatus := 403 }
   else s
 
+/-- the subrequest_start hooks (mod_indexfile, mod_access, mod_staticfile) and the fallback -/
+def subrequestStart (site : Site) (s : ReqSt) : ReqSt :=
+  -- mod_indexfile
+  let s :=
+    if !s.handlerModule && s.uriPath.bytes.getLast? = some slash then
+      match site.indexNames.find? (fun n => (site.lookup (s.physPath.bytes ++ n)).isSome) with
+      | some n => { s with physPath := some (s.physPath.bytes ++ n), physPathPtr := true,
+                           uriPath := some (s.uriPath.bytes ++ n) }
+      | none => s
+    else s
+  s.onCore (staticOrFallback site)
+
 /-- http_response_prepare() -/
 def responsePrepare (site : Site) (s : ReqSt) : ReqSt :=
   if s.httpStatus > 200 then
-    if !s.respBodyFinished then bodyClear hdrIds s false else s
+    if !s.respBodyFinished then s.onCore (bodyClear hdrIds · false) else s
   else
   -- request set-up is done once per request: only while physical.path is still unset
   let s1? : Except ReqSt ReqSt :=
@@ -505,10 +510,10 @@ def responsePrepare (site : Site) (s : ReqSt) : ReqSt :=
       if site.denySuffix.any (fun d => endsWith s.uriPath.bytes d) then
         .error { s with httpStatus := 403, handlerModule := false }
       else
-      let s := setenvUriClean s
-      if s.method = mOPTIONS && s.uriPath.bytes = [42] then .error (optionsStar s)
+      let s := s.onCore setenvUriClean
+      if s.method = mOPTIONS && s.uriPath.bytes = [42] then .error (s.onCore optionsStar)
       else if s.method = mCONNECT && (s.handlerModule || !s.h2ConnectExt) then
-        .error (if s.handlerModule then s else errorClose s 405)
+        .error (if s.handlerModule then s else s.onCore (errorClose · 405))
       else
         let root := s.conf.docRoot
         let rel := s.uriPath.bytes
@@ -529,7 +534,7 @@ def responsePrepare (site : Site) (s : ReqSt) : ReqSt :=
         -- http_response_redirect_to_directory()
         let loc := s.uriPath.bytes ++ [slash] ++
                    (match s.uriQuery with | some q => qmark :: q | none => [])
-        let s := respSet s idLocation (ofString "Location") loc
+        let s := s.onCore (respSet · idLocation (ofString "Location") loc)
         { s with httpStatus := 301, respBodyFinished := true }
       else subrequestStart site s
 
@@ -538,24 +543,20 @@ def staticErrdoc (s : ReqSt) : ReqSt :=
   let skip := if !s.handlerModule then s.errorHandlerSavedStatus ≥ 65535
               else (s.errorHandlerSavedStatus ≠ 0)        -- (error_intercept is off)
   if skip then s else
-  let www := if s.httpStatus = 401 then respGet s idWwwAuthenticate (ofString "WWW-Authenticate") else none
+  let www := if s.httpStatus = 401 then respGet s.toReqCore idWwwAuthenticate (ofString "WWW-Authenticate") else none
   let s := { s with physPath := none, physPathPtr := s.physPathPtr && !s.physPathBig, physPathBig := false,
                     respHtags := [], respHeaders := [] }
-  let s := bodyClear hdrIds s false
-  let s := match www with
-           | some v => respSet s idWwwAuthenticate (ofString "WWW-Authenticate") v
-           | none => s
-  let s := { s with respBodyFinished := true, writeQueue := s.writeQueue.append (errorPage s.httpStatus) }
-  respSet s idContentType (ofString "Content-Type") (ofString "text/html")
+  s.onCore fun s =>
+    let s := bodyClear hdrIds s false
+    let s := match www with
+             | some v => respSet s idWwwAuthenticate (ofString "WWW-Authenticate") v
+             | none => s
+    let s := { s with respBodyFinished := true, writeQueue := s.writeQueue.append (errorPage s.httpStatus) }
+    respSet s idContentType (ofString "Content-Type") (ofString "text/html")
 
-/-- http_response_write_prepare() (Range handling is C15's model; not repeated here) -/
-def writePrepare (s : ReqSt) : ReqSt :=
-  let s :=
-    if s.httpStatus = 204 || s.httpStatus = 205 || s.httpStatus = 304 then
-      let s := if s.httpStatus ≠ 304 then respUnset s idContentLength (ofString "Content-Length") else s
-      { bodyClear hdrIds s true with respBodyFinished := true }
-    else if s.httpStatus ≥ 400 && s.httpStatus < 600 then staticErrdoc s
-    else s
+/-- http_response_write_prepare() after the error document: response_start hooks, framing
+    headers, HEAD (Range handling is C15's model; not repeated here) -/
+def writePrepareTail (s : ReqCore) : ReqCore :=
   let s := setenvResponseStart s
   let s :=
     if s.respBodyFinished then
@@ -575,6 +576,17 @@ def writePrepare (s : ReqSt) : ReqSt :=
       else { s with keepAlive := 0 }
     else s
   if s.method = mHEAD then { bodyClear hdrIds s true with respBodyFinished := true } else s
+
+/-- http_response_write_prepare() -/
+def writePrepare (s : ReqSt) : ReqSt :=
+  let s :=
+    if s.httpStatus = 204 || s.httpStatus = 205 || s.httpStatus = 304 then
+      s.onCore fun s =>
+        let s := if s.httpStatus ≠ 304 then respUnset s idContentLength (ofString "Content-Length") else s
+        { bodyClear hdrIds s true with respBodyFinished := true }
+    else if s.httpStatus ≥ 400 && s.httpStatus < 600 then staticErrdoc s
+    else s
+  s.onCore writePrepareTail
 
 /-- http_response_has_error_handler() with no error handler configured: only the
     restoration from error_handler_saved_* remains -/
@@ -608,11 +620,11 @@ structure Out where
   keepAlive : Bool
 deriving Repr, DecidableEq
 
-def headerLines (s : ReqSt) : List (Bytes × Bytes) :=
+def headerLines (s : ReqCore) : List (Bytes × Bytes) :=
   (s.respHeaders.filter fun e => !e.2.1.isEmpty && !e.2.2.isEmpty).map fun e => (e.2.1, e.2.2)
 
 /-- h1_send_headers(): keep-alive decision, Connection header, serialisation -/
-def h1SendHeaders (requestCount : Nat) (s : ReqSt) : ReqSt :=
+def h1SendHeaders (requestCount : Nat) (s : ReqCore) : ReqCore :=
   let s :=
     if requestCount > s.conf.maxKeepAliveRequests then { s with keepAlive := 0 }
     else if s.reqbodyLength ≠ 0 && s.reqbodyLength ≠ (s.reqbodyQueue.bytesIn : Int) && !s.handlerModule then
@@ -624,11 +636,11 @@ def h1SendHeaders (requestCount : Nat) (s : ReqSt) : ReqSt :=
   else if s.version = 0 then respSet s idConnection (ofString "Connection") (ofString "keep-alive")
   else s
 
-def h1Output (s : ReqSt) : Out :=
+def h1Output (s : ReqCore) : Out :=
   { status := s.httpStatus, version := if s.version = 1 then 1 else 0,
     headers := headerLines s, body := s.writeQueue.data, keepAlive := s.keepAlive > 0 }
 
-def h2Output (s : ReqSt) : Out :=
+def h2Output (s : ReqCore) : Out :=
   { status := s.httpStatus, version := 2,
     headers := (headerLines s).map fun kv => (kv.1.map toLower, kv.2),
     body := s.writeQueue.data, keepAlive := true }
@@ -665,8 +677,8 @@ def h1Msg (site : Site) (e : SrvEnv) (c : Conn) (head : Bytes) : Conn × Option 
     | .blank _ => .blank
   match parsed with
   | .done r1 =>
-    let r2 := h1SendHeaders count (respond site r1)
-    let out := h1Output r2
+    let r2 := (respond site r1).onCore (h1SendHeaders count)
+    let out := h1Output r2.toReqCore
     -- connection_handle_response_end_state()
     let incomplete := r2.reqbodyLength ≠ (r2.reqbodyQueue.bytesIn : Int)
     let ka := r2.keepAlive > 0 && !incomplete
@@ -699,7 +711,7 @@ def h2Stream (site : Site) (e : SrvEnv) (h2r : ReqSt) (swin : Nat) (pooled : Req
   match parseIntoH2 r0 fs endStream with
   | .done r1 =>
     let r2 := respond site r1
-    (requestRelease hdrIds e r2, some (h2Output r2))
+    (requestRelease hdrIds e r2, some (h2Output r2.toReqCore))
   | _ => (requestRelease hdrIds e r0, none)
 
 /-- the request pool as a stack of released objects (request_pool_push / request_pool_pop);
